@@ -795,7 +795,14 @@ func (cc *Conn) handleReq(w *responsewriter.ResponseWriter[*Conn], req *pool.Mes
 
 	// The same message ID can not be handled concurrently
 	// for deduplication to work
-	l := cc.msgIDMutex.Lock(reqMid)
+	l, locked := cc.msgIDMutex.TryLock(reqMid)
+	if !locked {
+		// Another copy of this message is being handled right now, possibly by a handler that
+		// itself waits for a message from the peer: do not hold up the receive queue while
+		// waiting for it to finish.
+		cc.receivedMessageReader.TryToReplaceLoop()
+		l = cc.msgIDMutex.Lock(reqMid)
+	}
 	defer l.Unlock()
 
 	if ok, err := cc.checkResponseCache(req, w); err != nil {
